@@ -637,6 +637,23 @@ P["C08"]["units"] += [
 P["C09"]["units"] += [dict(jwkp_unit("C07", "openssl_process_rsa"), name="C09.openssl_process_rsa"),
                       dict(P["C08"]["units"][0], name="C09.process_octet")]
 
+P["C07"]["units"].append(
+    U("C07.jwks_process", "jwks_process (libjwt/jwks.c)", JWKS_C, "contracts/jwks_c.h",
+      "jwk_set_t *s; json_t *j; json_error_t *e; jwks_process(s, j, e);", "jwks_process/contract_C07_jwks_process",
+      replace=["jwk_process_one/contract_rec_jwk_process_one", "jwks_item_add/contract_rec_jwks_item_add"],
+      assumed_contracts=["jwk_process_one/contract_rec_jwk_process_one", "jwks_item_add/contract_rec_jwks_item_add"],
+      stubs=LIBC + ["stubs/alloc.c", "stubs/jansson.c"], defines=["VERIF_TU_JWKS", "VERIF_ALLOC_RECORD_FAIL", "VJ_ARRAY_STATIC_ELEM"], flags=[], object_bits=10,
+      loops={"jwks_process": [{"loop_id": 0, "vars": ["i", "j_item", "jwk_item", "jwk_set", "j_array"],
+        "assigns": "i, j_item, jwk_item, jwk_set->error, SPEC_ERRMSG_FRAME(jwk_set), g_lib_fail, g_p1_calls, g_add_calls, g_p1_arg_k, g_p1_ret_k, g_add_item_k, g_vj_elem, __CPROVER_object_whole(g_vj_elem_str)",
+        "invariants": ["i <= j_array->asize", "g_p1_calls == i", "g_add_calls <= g_p1_calls", "g_lib_fail == 0 || g_lib_fail == 1",
+                       "g_lib_fail == 0 ==> g_add_calls == g_p1_calls",
+                       "(g_lib_fail == 0 && g_seq_k < g_p1_calls) ==> (g_add_item_k == g_p1_ret_k && g_p1_ret_k != 0)",
+                       "jwk_set->error_msg[255] == 0"],
+        "decreases": "j_array->asize - i",
+        "globals": {"g_lib_fail": "g_lib_fail", "g_p1_calls": "g_p1_calls", "g_add_calls": "g_add_calls", "g_p1_arg_k": "g_p1_arg_k", "g_p1_ret_k": "g_p1_ret_k",
+                    "g_add_item_k": "g_add_item_k", "g_seq_k": "g_seq_k", "g_vj_elem": "g_vj_elem", "g_vj_elem_str": "g_vj_elem_str"}}]},
+      loop_macro_headers=["contracts/spec.h"],
+      expect=["contract_C07_jwks_process\\.postcondition\\.7", "jwks_process\\.loop_invariant_step", "contract_rec_jwk_process_one\\.precondition"], timeout=900))
 _REC_DOERS = ["__getter/contract_rec___getter", "__setter/contract_rec___setter", "__deleter/contract_rec___deleter"]
 for _w in ("header_get", "header_set", "claim_get", "claim_set"):
     P["C15"]["units"].append(U("C15.jwt_%s" % _w, "jwt_%s -> __run_it (libjwt/jwt-setget.c)" % _w, SETGET_C, "contracts/jwt_setget_c.h",
@@ -700,7 +717,8 @@ share("C10", ["C15.jwt_claim_set", "C15.jwt_header_set", "C15.__setter"])
 share("C17", ["C15.jwt_claim_set", "C15.jwt_header_set", "C10.jwt_head_setup", "C10.jwt_encode_str", "C17.jwt_malloc", "C17.__jwt_freemem", "C17.jwt_set_alloc"])
 share("C04", ["C15.jwt_claim_get"])
 share("C09", ["C08.jwk_process_values"])
-share("C07", ["C08.jwk_process_values", "C08.jwk_key_op_j", "C08.process_octet"])
+share("C07", ["C08.jwk_process_values", "C08.jwk_key_op_j", "C08.process_octet", "C11.base64_decode", "C11.jwt_base64uri_decode", "C11.finite.reject"])
+share("C08", ["C11.base64_decode", "C11.jwt_base64uri_decode"])
 
 def main():
     for prop, spec in P.items():
